@@ -44,7 +44,7 @@ CLASS_FLOORS = {"removed>=1": 0.2}
 
 @st.composite
 def stopping_cases(draw, max_inner=9):
-    g = draw(games.stopping_games(min_inner=2, max_inner=max_inner, dup_names=True))
+    g = draw(games.stopping_games(min_inner=2, max_inner=max_inner, dup_names=True, zero_edges=True))
     return dict(kind="game", game=g, prune=games.coin(draw))
 
 
